@@ -146,7 +146,7 @@ func c19Class(t *c19T) string {
 	return cl
 }
 
-var c19Shapes = [][]int{{6}, {2, 3}, {3, 2}, {3, 4}, {4, 3}, {2, 2, 3}, {2, 3, 2}, {4}, {1, 4}, {3, 1}, {2, 2, 2, 2}}
+var c19Shapes = [][]int{{6}, {2, 3}, {3, 2}, {3, 4}, {4, 3}, {2, 2, 3}, {2, 3, 2}, {4}, {1, 4}, {3, 1}, {2, 2, 2, 2}, {1, 1, 1}, {1, 2}, {1}}
 
 func (s *c19State) ownedInts(what string, vals ...int) []int {
 	full := make([]int, len(vals)+3)
@@ -800,12 +800,47 @@ func (s *c19State) actElementwise() *c19Act {
 
 func (s *c19State) actProduct() *c19Act {
 	rng := s.rng
+	kind := rng.Intn(6)
+	if kind >= 4 {
+		// contractions over operands of any rank and extent (single elements, unit axes, column-major, views ...)
+		x := s.pick(func(t *c19T) bool { return t.kind == "f64" && hasAxes(t) })
+		if x == nil {
+			return nil
+		}
+		sh := shp19(x)
+		a := &c19Act{operand: []*c19T{x}}
+		keep := func(r tensor.Tensor, err error) error {
+			if rd, ok := r.(*tensor.Dense); ok && err == nil && len(s.live) < 8 && rng.Intn(2) == 0 {
+				a.created = append(a.created, s.add(rd, -1, "f64"))
+			}
+			return err
+		}
+		if kind == 4 {
+			a.name = "TensorMul(all axes)"
+			y := s.pick(func(t *c19T) bool { return t.kind == "f64" && hasAxes(t) && gen.ShapeEq(shp19(t), sh) })
+			if y == nil {
+				y = x
+			} else if y != x {
+				a.operand = append(a.operand, y)
+			}
+			all := make([]int, len(sh))
+			for i := range all {
+				all[i] = i
+			}
+			aa, ba := s.ownedInts("TensorMul-axesA", all...), s.ownedInts("TensorMul-axesB", all...)
+			a.run = func() error { return keep(x.d.TensorMul(y.d, aa, ba)) }
+			return a
+		}
+		a.name = "Dot"
+		last := sh[len(sh)-1]
+		a.run = func() error { return keep(tensor.Dot(x.d, s.newTensor("f64", []int{last, 2}, rng.Intn(2) == 0))) }
+		return a
+	}
 	x := s.pick(func(t *c19T) bool { return t.kind == "f64" && t.d.Dims() == 2 })
 	if x == nil {
 		return nil
 	}
 	sh := shp19(x)
-	kind := rng.Intn(4)
 	a := &c19Act{operand: []*c19T{x}}
 	keep := func(r tensor.Tensor, err error) error {
 		if rd, ok := r.(*tensor.Dense); ok && err == nil && len(s.live) < 8 && rng.Intn(2) == 0 {
